@@ -16,6 +16,11 @@ CHECKS = {
         text="Tree shape, decoded literal values and spans of every accepted text are compared with an independent model; spanned text is re-parsed through the library; every parse_block_string call is checked against BlockStringValue().",
         note="Trusts R-LANG's tree construction; Document span follows the library's SOF..EOF convention.",
         design="4/C02"),
+    "C03": dict(
+        technique="runtime monitor on ASTPrinter/print_ast: metamorphic round trip parse -> print -> parse -> print observed on every parser-accepted text of the workload, for several indent settings",
+        text="For each accepted text the monitor checks that printing does not raise, is deterministic, re-parses under the same flags to an equal tree (positions ignored) and re-prints identically. Exploration over generated documents with hostile string contents; held on the cases produced.",
+        note="Tree equality is to_dict() without loc; descriptions are compared by value (the printer documents block form). Member descriptions are a listed known finding and removed from both sides.",
+        design="4/C03"),
 }
 
 PENDING_REASON = "check not built yet in this session (planned: see DESIGN.md section 4); no claim is made"
